@@ -600,16 +600,42 @@ pub fn run(ctx: &Ctx) {
             t.infra("no generated vector was well-formed (degenerate accepting side)".to_string());
         }
         // try_pi_len against u128 reference arithmetic (shared with C29)
-        for _ in 0..2000 {
+        pi_len_sweep(&mut rng, t, 2000, "C24");
+    });
+}
+
+/// Samples try_pi_len against exact u128 arithmetic: generic extremes plus values around and
+/// between the overflow thresholds of each layout term.
+pub fn pi_len_sweep(rng: &mut Rng, t: &mut Tally, count: usize, prefix: &str) {
+        for _ in 0..count {
             let pick = |rng: &mut Rng| -> usize { match rng.below(6) { 0 => rng.usize(70), 1 => usize::MAX, 2 => 1 << 63, 3 => (1usize << 32) + rng.usize(3), 4 => rng.u64() as usize, _ => rng.usize(1 << 20) } };
-            let (m, n) = (pick(&mut rng), pick(&mut rng));
-            let got = qp_wormhole_inputs::public_batch_pi::try_pi_len(m, n);
+            let (m, n) = if rng.chance(1, 2) {
+                (pick(rng), pick(rng))
+            } else {
+                // around the overflow threshold of each layout term (2n, 4mn, 10mn, 14mn, ...) and
+                // inside the bands between two thresholds, where a partially checked sum would wrap
+                let m = 1 + rng.usize(8);
+                let c = *rng.pick(&[2usize, 4, 5, 8, 10, 11, 12, 13, 14, 15, 16, 20, 28]);
+                let base = usize::MAX / c / m;
+                let n = match rng.below(3) {
+                    0 => base.wrapping_add(rng.usize(5)).wrapping_sub(2),
+                    1 => base - rng.usize(base / 8 + 1),
+                    _ => base + rng.usize(base / 8 + 1),
+                };
+                if rng.bool() { (m, n) } else { (n, m) }
+            };
+            let got = match catch(|| qp_wormhole_inputs::public_batch_pi::try_pi_len(m, n)) {
+                Ok(g) => g,
+                Err(p) => {
+                    t.violation(format!("{}:try_pi_len", prefix), format!("try_pi_len({}, {}) panicked: {}", m, n, p), json!({"kind": "c24_pilen", "m": m, "n": n}));
+                    continue;
+                }
+            };
             t.eval();
             if !pi_len_ok(m, n, got) {
-                t.violation("C24:try_pi_len".to_string(), format!("try_pi_len({}, {}) = {:?}, u128 arithmetic says {:?}", m, n, got, pub_len(m, n)), json!({"kind": "c24_pilen", "m": m, "n": n}));
+                t.violation(format!("{}:try_pi_len", prefix), format!("try_pi_len({}, {}) = {:?}, u128 arithmetic says {:?}", m, n, got, pub_len(m, n)), json!({"kind": "c24_pilen", "m": m, "n": n}));
             }
         }
-    });
 }
 
 pub fn replay(case: &serde_json::Value) -> Result<bool, String> {
